@@ -478,7 +478,32 @@ def _decode_signature(P, b):
                 v = T.fold_int(c[3])
             if v is not None:
                 dispatch.add((v, re.sub(r"^huginn_net(_[a-z]+)?::", "", nm)))
-    return (tuple(sorted(reads)), tuple(sorted(tests)), tuple(sorted(arith, key=str)), tuple(sorted(orders)), tuple(sorted(dispatch)))
+    # length guards that give up: `if packet.len() < k { return None }` in whatever spelling (slice pattern, first_chunk, get(..)?) - the
+    # frames one copy refuses to look at and another decodes
+    guards = set()
+    none_like = set()
+    all_rets = set()
+    for (rb_, j_, term_, _c_) in TB.return_sites(b, P):
+        tt_ = T.strip(term_)
+        all_rets.add(rb_)
+        if (tt_[0] == "agg" and tt_[3] == "None") or (tt_[0] == "const" and tt_[1] is False) or (tt_[0] == "call" and tt_[1].endswith("::from_residual")):
+            none_like.add(rb_)
+    for sb_ in sorted(b.reachable):
+        be_ = T.branch_edges(b, S, sb_)
+        if be_ is None:
+            continue
+        for succ_, lab_ in be_[1].items():
+            for c_ in Q.canon_cond(P, be_[0], lab_, sb_):
+                c_ = Q._norm_cmp(c_)
+                o_ = Q.oriented(c_, lambda z: T.has_call(z, "::len") and any(x[0] == "param" for x in T.walk(z))) if c_[0] == "cmp" else None
+                if not (o_ and o_[0] in ("Lt", "Le") and T.fold_int(o_[2]) is not None):
+                    continue
+                # the edge taken when the frame is too short gives up: every return it can reach is None / false
+                reach_ = C.reachable_from(b, succ_) | {succ_}
+                rr_ = reach_ & all_rets
+                if rr_ and rr_ <= none_like:
+                    guards.add(T.fold_int(o_[2]) + (1 if o_[0] == "Le" else 0))
+    return (tuple(sorted(reads)), tuple(sorted(tests)), tuple(sorted(arith, key=str)), tuple(sorted(orders)), tuple(sorted(dispatch)), tuple(sorted(guards)))
 
 
 def rule_siblings(ctx):
@@ -515,7 +540,8 @@ def rule_siblings(ctx):
                 continue
             dc = {"bytes read": sorted(set(sg[0]) ^ set(major[0][0])), "values tested": sorted(set(sg[1]) ^ set(major[0][1])),
                   "masks/shifts/steps": sorted(set(sg[2]) ^ set(major[0][2]), key=str),
-                  "value -> helper": sorted(set(sg[4]) ^ set(major[0][4]), key=str)}
+                  "value -> helper": sorted(set(sg[4]) ^ set(major[0][4]), key=str),
+                  "frames shorter than .. refused": sorted(set(sg[5]) ^ set(major[0][5]))}
             dc = {k_: v_ for k_, v_ in dc.items() if v_}
             dv = (list(sg[3]), list(major[0][3]))
             for fam in fs:
@@ -550,7 +576,15 @@ def rule_link_order(ctx):
     E.ip_from_same_slice(ctx, ctx.program, "R9", ("huginn_net_tcp", "huginn_net_http", "huginn_net_tls", "huginn_net"))
 
 
+def rule_pool_filter(ctx):
+    """the filter reaches the workers: every pool is built with the analyzer's own filter (shared with C10.R4)"""
+    from ..engine import report as R
+    from . import C10
+    C10.rule_pool_construction(R.Retag(ctx, "C10."))
+
+
 def run(ctx):
+    rule_pool_filter(ctx)
     rule_link_order(ctx)
     rule_siblings(ctx)
     rule_workers(ctx)
